@@ -43,6 +43,9 @@ theorem dstu_sign_complete (L : DLaws C) {fuel ld : Nat} {Hb priv tape sig : Byt
   by_cases hc : ld % 16 ≠ 0 ∨ ld < 16 * C.oo
   · rw [if_pos hc] at hs; simp at hs
   rw [if_neg hc] at hs
+  by_cases hd : leNat priv = 0 ∨ leNat priv ≥ C.n
+  · rw [if_pos hd] at hs; simp at hs
+  rw [if_neg hd] at hs
   split at hs
   · cases hs
   · rename_i h hh
@@ -52,6 +55,14 @@ theorem dstu_sign_complete (L : DLaws C) {fuel ld : Nat} {Hb priv tape sig : Byt
     rw [L.smul_eq] at hxy
     rw [hsig]
     exact d_verify_sig L (by omega) (by omega) hh hxy hr0 hs0 hQ
+
+/-- dstuSign rejects a private key outside {1, …, n − 1} (after the ld checks, before anything is drawn
+from the generator) -/
+theorem dstu_sign_rejects_privkey (C : Dstu G F) {fuel ld : Nat} {Hb priv tape : Bytes}
+    (h1 : ld % 16 = 0) (h2 : 16 * C.oo ≤ ld) (hd : leNat priv = 0 ∨ leNat priv ≥ C.n) :
+    C.sign fuel ld Hb priv tape = some (.badPrivkey, [], 0) := by
+  unfold Dstu.sign
+  rw [if_neg (by omega), if_pos hd]
 
 /-- the acceptance set of dstuVerify, exactly: admissible `ld`, public key a pair of field elements on
 the curve, a hash value that is loadable, zero padding in both halves, 0 < r, s < n, and
